@@ -176,6 +176,7 @@ struct ChannelMap
     // support of channel c in dimension 0: [slo[c], shi[c]] (density zero outside); default [0, 1]
     std::vector<long double> slo, shi;
     bool singular = false;   // one channel's density is infinite at some points
+    bool early = false;      // densities are written when coordinates are requested
     long double jac = 1;
 
     void build(Plan const& p);
